@@ -73,7 +73,11 @@ func init() {
 			_, err := hex.DecodeString(cs)
 			return Bool(len(cs) == 40 && err == nil)
 		}
-		return App("ishexaddr", SBool, it.toA(s))
+		t := it.toA(s)
+		if t.op == "app" && t.name == "addrhex" {
+			return TTrue // IsHexAddress(addr.Hex())
+		}
+		return App("ishexaddr", SBool, t)
 	}
 	ident := func(it *Interp, a []Val) Val {
 		s := a[0].(*StrV)
@@ -295,4 +299,31 @@ func (it *Interp) abiFromJSON(text string) Val {
 		}
 	}
 	return res
+}
+
+// abi.Unpack for uint256-returning ERC-20 getters: one *big.Int that is a function of the return data.
+func init() {
+	prev := models["("+ethABI+".ABI).Unpack"]
+	models["("+ethABI+".ABI).Unpack"] = func(it *Interp, a []Val) Val {
+		name, _ := a[1].(*StrV).concreteString()
+		if name == "balanceOf" || name == "totalSupply" || name == "allowance" {
+			data := a[2].(*StrV)
+			t := it.toA(data)
+			it.strLenTerm(t)
+			if !it.p.branch(App("abiunpacks!"+name, SBool, t)) {
+				return Tuple{&SliceV{}, it.newErr(IfaceV{}, "abi: unpack failed")}
+			}
+			v := App("abiret_uint!"+name, SInt, t)
+			it.p.assertAxiom(IntCmp(">=", v, IntI(0)))
+			var bigT types.Type
+			for _, p := range it.prog.AllPackages() {
+				if p.Pkg.Path() == "math/big" {
+					bigT = types.NewPointer(p.Pkg.Scope().Lookup("Int").Type())
+				}
+			}
+			el := []Val{IfaceV{T: bigT, V: Ptr(newVal(IntV{v}))}}
+			return Tuple{&SliceV{Arr: &el, Len: 1, Cap: 1}, IfaceV{}}
+		}
+		return prev(it, a)
+	}
 }
